@@ -708,6 +708,54 @@ mod n {
         });
     }
 
+    // The occluders the sunlit-fraction calculation really uses (Model::collect_occluders) answer exactly like the
+    // geometry they were made from: the bounding-box pre-filter and the cached matrices must not change any answer,
+    // wherever the ray starts (inside or outside the element's bounding box).
+    #[test]
+    fn n_c13_occluder_equiv() {
+        drive("C13.occluder", "Model::collect_occluders + impl Intersectable for &Occluder vs WallGeom::intersects: 4 polygons x 7 poses x 2 positions, as wall or shade; ray origins on both sides at distance {0.3, 2.5} (inside / outside the bounding box), 6x6 in-plane targets, towards / away", |c| {
+            let poly = c.of(&polys());
+            let (tilt, az) = c.of(&POSES);
+            let pos = c.of(&[point![0.0f32, 0.0, 0.0], point![3.0f32, -2.0, 5.0]]);
+            let as_shade = c.flag();
+            let g = WallGeom { tilt, azimuth: az, position: Some(pos), polygon: poly.clone() };
+            let mut m = mk::empty_model();
+            m.spaces.push(mk::space(0xA0, true, ST::CONDITIONED, 1.0, 3.0));
+            if as_shade {
+                m.shades.push(Shade { id: mk::uid(0x31), name: "s".into(), geometry: g.clone() });
+            } else {
+                m.walls.push(mk::wall(1, BT::EXTERIOR, mk::uid(0xA0), None, mk::uid(0xC0), tilt, az, poly.clone(), Some(pos)));
+            }
+            let occ = m.collect_occluders();
+            c.check("C13.occluder.collected", occ.len() == 1, || format!("{} occluders collected for one positioned element", occ.len()));
+            if occ.len() != 1 {
+                return;
+            }
+            let mat = g.to_global_coords_matrix().unwrap();
+            let side = c.of(&[0.3f32, -0.3, 2.5, -1.5]);
+            let tx = -0.75 + c.pick(6) as f32;
+            let ty = -0.75 + c.pick(6) as f32;
+            let towards = c.flag();
+            let lo = point![1.3f32, 0.7, side];
+            let lt = point![tx, ty, 0.0];
+            let (go, gt) = (mat * lo, mat * lt);
+            let ray = Ray::new(go, if towards { gt - go } else { go - gt });
+            c.note(format!("poly {} tilt {} az {} pos {:?} shade {} side {} target ({}, {}) towards {}", poly.len(), tilt, az, pos, as_shade, side, tx, ty, towards));
+            if inside_simple(tx, ty, &poly).is_none() {
+                return; // within 1 mm of the outline
+            }
+            let direct = g.intersects(&ray).is_some();
+            let via = (&occ[0]).intersects(&ray).is_some();
+            c.check("C13.occluder.equiv", via == direct, || format!("occluder answers {} but its geometry answers {}", via, direct));
+            let b = occ[0].aabb;
+            let inside_box = go.x >= b.min.x && go.x <= b.max.x && go.y >= b.min.y && go.y <= b.max.y && go.z >= b.min.z && go.z <= b.max.z;
+            if direct && inside_box {
+                c.nontrivial(format!("{} {} {} {:?} {} {} {}", poly.len(), tilt, az, pos, side, tx, ty));
+            }
+            c.sample(|| format!("tilt {} az {} side {} target ({}, {}) towards {} origin inside box {} -> {}", tilt, az, side, tx, ty, towards, inside_box, via));
+        });
+    }
+
     #[test]
     fn n_c13_geom_aabb() {
         drive("C13.geom.aabb", "WallGeom::aabb for 4 polygons x 7 poses x 2 positions: contains every transformed corner and is tight", |c| {
@@ -855,8 +903,9 @@ mod n {
 
     /// South-facing wall 4x3 at the origin with one window; optional obstacles:
     ///  0: a big wall 3 m in front (south), 1: an overhang above the window, 2: a side fin to the east,
-    ///  3: a wall behind the building (north) which can never be hit, 4: a low parapet far south (hides only very low sun)
-    fn c12_model(win_variant: usize, obstacles: &[bool; 5]) -> Model {
+    ///  3: a wall behind the building (north) which can never be hit, 4: a low parapet far south (hides only very low sun),
+    ///  5: an oblique screen whose bounding box contains the window
+    fn c12_model(win_variant: usize, obstacles: &[bool; 6]) -> Model {
         let mut m = mk::empty_model();
         m.spaces.push(mk::space(0xA0, true, ST::CONDITIONED, 1.0, 3.0));
         m.cons.materials.push(mk::material(0xE0, 0.5));
@@ -891,22 +940,26 @@ mod n {
         if obstacles[4] {
             m.shades.push(Shade { id: mk::uid(0x33), name: "parapet".into(), geometry: WallGeom { tilt: 90.0, azimuth: 0.0, position: Some(point![-10.0, -30.0, 0.0]), polygon: mk::rect(30.0, 1.0) } });
         }
+        if obstacles[5] {
+            // an oblique screen (30 degrees off the facade) passing 1..6 m in front: its bounding box contains the window
+            m.shades.push(Shade { id: mk::uid(0x34), name: "screen".into(), geometry: WallGeom { tilt: 90.0, azimuth: 30.0, position: Some(point![-4.0, -6.0, 0.0]), polygon: mk::rect(12.0, 9.0) } });
+        }
         m
     }
 
     #[test]
     fn n_c12_sunlit() {
-        drive("C12.sunlit", "Model::sunlit_fraction: south window (normal / set back 0.3 / without position / wall missing / wall without position) x all subsets of 5 obstacles x sun azimuth {0,60,-60,180} x altitude {8,35,75}; each subset is compared with every one-obstacle extension", |c| {
+        drive("C12.sunlit", "Model::sunlit_fraction: south window (normal / set back 0.3 / without position / wall missing / wall without position) x all subsets of 6 obstacles (one oblique) x sun azimuth {0,60,-60,180} x altitude {8,35,75}; each subset is compared with every one-obstacle extension", |c| {
             let wv = c.pick(5);
-            let mut obs = [false; 5];
-            for k in 0..5 {
+            let mut obs = [false; 6];
+            for k in 0..6 {
                 obs[k] = c.flag();
             }
             let az = c.of(&[0.0f32, 60.0, -60.0, 180.0]);
             let alt = c.of(&[8.0f32, 35.0, 75.0]);
             c.note(format!("window variant {} obstacles {:?} sun az {} alt {}", wv, obs, az, alt));
             let dir = ray_dir_to_sun(az, alt);
-            let eval = |o: &[bool; 5]| -> f32 {
+            let eval = |o: &[bool; 6]| -> f32 {
                 let m = c12_model(wv, o);
                 let w = &m.windows[0];
                 let origins = m.ray_origins_for_window(w);
@@ -922,7 +975,7 @@ mod n {
                 _ => {
                     if az == 180.0 {
                         c.check("C12.sunlit.behind", f == 0.0, || format!("sun behind the window but sunlit fraction {}", f));
-                    } else if !obs[0] && !obs[1] && !obs[2] && !obs[4] && wv == 0 {
+                    } else if !obs[0] && !obs[1] && !obs[2] && !obs[4] && !obs[5] && wv == 0 {
                         c.check("C12.sunlit.unobstructed", f == 1.0, || format!("nothing can hide the window but sunlit fraction {}", f));
                     }
                     if obs[0] && az != 180.0 {
@@ -932,7 +985,7 @@ mod n {
                 }
             }
             // adding an obstacle never increases the sunlit fraction
-            for k in 0..5 {
+            for k in 0..6 {
                 if !obs[k] {
                     let mut o2 = obs;
                     o2[k] = true;
@@ -949,16 +1002,16 @@ mod n {
 
     #[test]
     fn n_c12_fshobst() {
-        drive("C12.fshobst", "Model::compute_fshobst on the same models (window normal / set back) x all subsets of 5 obstacles x climate zone {D3, A3c}: range, unobstructed >= 0.97, monotone in the obstacle set", |c| {
+        drive("C12.fshobst", "Model::compute_fshobst on the same models (window normal / set back) x all subsets of 6 obstacles (one oblique) x climate zone {D3, A3c}: range, unobstructed >= 0.97, monotone in the obstacle set", |c| {
             use crate::climatedata::ClimateZone;
             let wv = c.pick(2);
-            let mut obs = [false; 5];
-            for k in 0..5 {
+            let mut obs = [false; 6];
+            for k in 0..6 {
                 obs[k] = c.flag();
             }
             let zone = c.of(&[ClimateZone::D3, ClimateZone::A3c]);
             c.note(format!("window variant {} obstacles {:?} zone {}", wv, obs, zone));
-            let eval = |o: &[bool; 5]| -> Option<f32> {
+            let eval = |o: &[bool; 6]| -> Option<f32> {
                 let mut m = c12_model(wv, o);
                 m.meta.climate = zone;
                 m.compute_fshobst().get(&mk::uid(0x11)).copied()
@@ -967,7 +1020,7 @@ mod n {
             c.check("C12.fshobst.present", f.is_some(), || "no factor computed for the window".to_string());
             let f = f.unwrap_or(f32::NAN);
             c.check("C12.fshobst.range", f >= 0.0 && f <= 1.0, || format!("F_sh,obst = {}", f));
-            if wv == 0 && !obs[0] && !obs[1] && !obs[2] && !obs[4] {
+            if wv == 0 && !obs[0] && !obs[1] && !obs[2] && !obs[4] && !obs[5] {
                 c.check("C12.fshobst.unobstructed", f >= 0.97, || format!("nothing can hide the window but F_sh,obst = {}", f));
             }
             // independent oracle for the two extreme cases: mean over the July design-day hours of
@@ -986,14 +1039,14 @@ mod n {
                     nh += 1;
                 }
                 c.check("C12.fshobst.hours", nh >= 12, || format!("{} July design-day hours", nh));
-                if wv == 0 && !obs[0] && !obs[1] && !obs[2] && !obs[4] {
+                if wv == 0 && !obs[0] && !obs[1] && !obs[2] && !obs[4] && !obs[5] {
                     c.check("C12.fshobst.formula.unobstructed", (f as f64 - sum_unob / nh as f64).abs() <= 0.0051 + 1e-4, || format!("F_sh,obst = {} but the mean over {} hours is {}", f, nh, sum_unob / nh as f64));
                 }
                 if obs[0] {
                     c.check("C12.fshobst.formula.hidden", (f as f64 - sum_hidden / nh as f64).abs() <= 0.0051 + 1e-4, || format!("hidden at every hour: F_sh,obst = {} but the diffuse share is {}", f, sum_hidden / nh as f64));
                 }
             }
-            for k in 0..5 {
+            for k in 0..6 {
                 if !obs[k] {
                     let mut o2 = obs;
                     o2[k] = true;
